@@ -258,7 +258,7 @@ PRelocInfo ReadRelocInfo(FILE* f) {
     PRelocInfo   PInfo;
     PRelocEntry  PEntry;
     PExportEntry PExp;
-    Boolean      OK = FALSE;
+    Boolean      OK = FALSE, RelocsRead;
     LongWord     StringLen, StringPos;
     LongInt      z;
 
@@ -291,7 +291,7 @@ PRelocInfo ReadRelocInfo(FILE* f) {
                             if (!Read8(f, &PEntry->Addr)) {
                                 break;
                             }
-                            if (!Read4(f, &StringPos)) {
+                            if (!Read4(f, &StringPos) || (StringPos >= StringLen)) {
                                 break;
                             }
                             PEntry->Name = PInfo->Strings + StringPos;
@@ -302,9 +302,10 @@ PRelocInfo ReadRelocInfo(FILE* f) {
 
                         /* read export entries */
 
+                        RelocsRead = (z == PInfo->RelocCount);
                         for (z = 0, PExp = PInfo->ExportEntries; z < PInfo->ExportCount;
                              z++, PExp++) {
-                            if (!Read4(f, &StringPos)) {
+                            if (!Read4(f, &StringPos) || (StringPos >= StringLen)) {
                                 break;
                             }
                             PExp->Name = PInfo->Strings + StringPos;
@@ -318,8 +319,15 @@ PRelocInfo ReadRelocInfo(FILE* f) {
 
                         /* read strings */
 
-                        if (z == PInfo->ExportCount) {
+                        if (RelocsRead && (z == PInfo->ExportCount)) {
                             OK = ((fread(PInfo->Strings, 1, StringLen, f)) == StringLen);
+
+                            /* names are used as C strings */
+
+                            if (OK && (StringLen > 0)
+                                && (PInfo->Strings[StringLen - 1] != '\0')) {
+                                OK = False;
+                            }
                         }
                     }
                 }
